@@ -13,10 +13,15 @@ def same(R, src_struct, src_hash, got, what, W):
     R.check(bridge.struct_lib(got) == src_struct, 'roundtrip-structure', f'{what}: parsed DAG differs in bits/type/refs', W)
 
 
-def one(R, B, name, r, c, W, all_forms=True, huge=False):
+def one(R, B, name, r, c, W, all_forms=True, huge=False, light=False):
+    """light: two of the six option sets (chosen by the root hash) and one entry point per form - for the variants of a DAG whose full matrix was already run"""
     src = bridge.struct_lib(c)
     ordinary_root = r.type == rc.ORD
-    for oi, o in enumerate(OPTS if not huge else [OPTS[0], OPTS[5]]):
+    opts = OPTS if not huge else [OPTS[0], OPTS[5]]
+    if light:
+        k = r.hash[0] % 6
+        opts = [OPTS[k], OPTS[(k + 3) % 6]]
+    for oi, o in enumerate(opts):
         st, b = mon.call(c.to_boc, *o)
         if st == 'exc':
             R.exc(b)
@@ -31,8 +36,8 @@ def one(R, B, name, r, c, W, all_forms=True, huge=False):
                        ('Slice.one_from_boc', lambda d: B.Slice.one_from_boc(d).to_cell())]
             if ordinary_root:
                 entries.append(('Builder.one_from_boc', lambda d: B.Builder.one_from_boc(d).end_cell()))
-            if huge:
-                entries = [entries[oi % len(entries)]]
+            if huge or light:
+                entries = [entries[(oi + r.hash[1]) % len(entries)]]
             for ename, f in entries:
                 st, got = mon.call(f, data)
                 R.count(f'parse:{fname}:{ename}')
@@ -67,20 +72,29 @@ def run(R):
             continue
         one(R, B, name, r, c, W, all_forms=n < 3000, huge=n > 20000)
         if 1 < n <= 300:
+            # the same cell objects as parts of different bags, one after the other: a descendant alone, the root again, a new parent of both
+            sub = next(((lk, rk) for lk, rk in zip(c.refs, r.refs) if rk.refs), None)
+            if sub is not None:
+                one(R, B, name + '/descendant-after-root', sub[1], sub[0], dict(W, sequence='root, then a descendant on its own'), all_forms=False, light=True)
+                one(R, B, name + '/root-after-descendant', r, c, dict(W, sequence='root, descendant, root again'), all_forms=False, light=True)
+                st, parent = mon.call(lambda: B.Builder().store_bits('1011').store_ref(sub[0]).store_ref(c).end_cell())
+                if st == 'ok':
+                    one(R, B, name + '/new-parent-of-serialised-cells', rc.RC('1011', (sub[1], r)), parent, dict(W, sequence='children first, then a new parent'), all_forms=False, light=True)
+                R.count('multi_bag_sequences')
             # equal sub-cells as distinct Python objects, and a root that came out of the parser (its cells hold parser-made bit arrays)
             st, cf = mon.call(bridge.to_lib, r, 'builder-fresh')
             if st == 'ok':
-                one(R, B, name + '/equal-cells-as-distinct-objects', r, cf, dict(W, objects='distinct'), all_forms=False)
+                one(R, B, name + '/equal-cells-as-distinct-objects', r, cf, dict(W, objects='distinct'), all_forms=False, light=True)
                 R.count('fresh_object_dags')
             # cells constructed directly from plain / Tvm bit arrays (any length mod 8)
             for route in ('direct_plain', 'direct_tvm'):
                 st, cd = mon.call(bridge.to_lib, r, route)
                 if st == 'ok':
-                    one(R, B, name + '/' + route, r, cd, dict(W, objects=f'Cell(...) constructed via {route}'), all_forms=False)
+                    one(R, B, name + '/' + route, r, cd, dict(W, objects=f'Cell(...) constructed via {route}'), all_forms=False, light=True)
                     R.count('direct_construction_dags')
             st, cp = mon.call(bridge.to_lib, r, 'boc-hashes')
             if st == 'ok':
-                one(R, B, name + '/reserialise-parsed-foreign', r, cp, dict(W, objects='parsed from a foreign encoding with stored hashes'), all_forms=False)
+                one(R, B, name + '/reserialise-parsed-foreign', r, cp, dict(W, objects='parsed from a foreign encoding with stored hashes'), all_forms=False, light=True)
                 R.count('reserialised_parsed_dags')
         R.case(mon.fp(r.hash) if n > 1 else None, sample={'class': name, 'cells': n, 'types': sorted({x.type for x in cells})} if not name.startswith('bulk') or R.evaluations < 3 else None)
         R.cover('classes', name)
@@ -96,6 +110,7 @@ def run(R):
     R.floor('parse:base64:Slice.one_from_boc', 5)
     R.floor('parse:hex:Builder.one_from_boc', 5)
     R.floor('fresh_object_dags', 20)
+    R.floor('multi_bag_sequences', 10)
     R.floor('direct_construction_dags', 40)
     R.floor('reserialised_parsed_dags', 20)
 
